@@ -793,10 +793,14 @@ Definition acc_hash_warp (a : acc) (rn : nset) (w : N) : bytes :=
                                        then [snd kv] else []) (a_edges a)))
   end.
 
-(* SnapshotAccumulator::compute_state_root: everything passed to hasher.update, in order *)
-Definition acc_root_preimage (a : acc) (r : nkey) : bytes :=
+(* SnapshotAccumulator::compute_state_root: everything passed to hasher.update, in order.
+   It starts with domain::STATE_ROOT_V1 like snapshot.rs (since the fix of DESIGN F2; before that
+   fix the prefix was missing, i.e. acc_prefix = []). *)
+Definition acc_prefix : bytes := state_root_v1.
+Definition acc_root_body (a : acc) (r : nkey) : bytes :=
   let '(rn, rw) := acc_reach a r in
   id32 (fst r) ++ id32 (snd r) ++ flat_map (fun wu => acc_hash_warp a rn (fst wu)) rw.
+Definition acc_root_preimage (a : acc) (r : nkey) : bytes := acc_prefix ++ acc_root_body a r.
 
 (* ------------------------------------------------------------------ *)
 (* Concrete witnesses used by the refutation theorems (and replayed on the real code). *)
